@@ -36,7 +36,7 @@ def add(pid, engine, category, technique, text, note, ref):
 PARSE_NOTE = ("Trusted: gcc ASan/UBSan, guard-page placement and the allocation ledger as memory oracles; the harness' reference recognisers S (strict RFC 8259) and L (most permissive dialect the property allows); "
               "libc strtod as correctly rounded. Bounded by the stated alphabets/lengths; x86-64 glibc only.")
 add("C01", "x_parse", MC, "bounded exhaustive input enumeration (all byte/token/piece strings up to a length bound) of the real parser under ASan + guard pages + allocation ledger",
-    "Every byte string over a 33-byte alphabet up to length 4 (thorough 5), every token string up to 5 (6) tokens, every string-literal built from up to 3 (4) escape pieces in 6 contexts, nesting families around the limit and to depth 100000, "
+    "Every byte string over a 33-byte alphabet up to length 4 (thorough 5), every token string up to 5 (6) tokens, every string-literal built from up to 3 (4) escape pieces in 6 contexts, 20 nesting families around the limit and to depth 100000 (incl. levels that first hold one or two empty containers), "
     "each through all 10 entry-point/option combinations on exact-size read-only buffers flush against PROT_NONE pages; tree walk, print, delete and ledger balance checked on every execution.", PARSE_NOTE, "DESIGN.md §3 C01")
 add("C02", "x_parse", MC, "bounded exhaustive input enumeration compared per execution with an independent strict decoder",
     "Same enumerations plus all 65536 \\uXXXX escapes in both hex cases as value and key, surrogate-pair sweeps, a number-literal grid and all trees up to 4 (5) nodes serialised with three whitespace fillings, BOM and terminator variants; "
@@ -71,7 +71,7 @@ add("C11", "x_hist", MC, "explicit-state BFS with cJSON_Duplicate in the alphabe
 add("C14", "x_hist", MC, "explicit-state BFS over the real API repeated under 8 hook configurations with link-time interposition of malloc/realloc/free",
     "Configurations {default, both custom (tagged blocks), malloc only, free only, custom then NULL, custom then NULL members, custom then malloc only, custom then free only} x all histories to depth 2 (3): with both hooks custom no libc allocator call from library context and no realloc; "
     "every released block was handed out by the matching allocator (tag check), one-sided configurations route every request through the installed function, reset restores the default; print and Utils results are released with cJSON_free. "
-    "Plus 10 broad API scripts (64+-character numbers, large texts, all print variants, Minify, accepted/rejected/whole-document patches, generate/merge/sort/pointer utilities, deep duplicate, malformed texts) under each of the 8 configurations.", HIST_NOTE, "DESIGN.md §3 C14")
+    "Plus 12 broad API scripts (string literals of every escape count 1..320 in 4 shapes as value and member name, 64+-character numbers, large texts, all print variants, Minify, accepted/rejected/whole-document patches, generate/merge/sort/pointer utilities, deep duplicate, malformed texts) under each of the 8 configurations.", HIST_NOTE, "DESIGN.md §3 C14")
 add("C19", "x_hist", MC, "explicit-state BFS alternating sorting calls and edits from every object up to 4 (5) members over 6 keys",
     "Start states: all 2801 objects with <= 4 members over keys {a,A,b,B,_,\"\",\"\\u00e9\"} with duplicates, the 2-3 member ones also nested under constant/owned keys, plus nested/paired objects (thorough: one more alternation layer); alternating layers of sorting calls (SortObject cs/ci, patch test, patch generation, merge-patch generation) and the full edit alphabet: "
     "sorted permutation of the same nodes, idempotent, structural walk, and list-model agreement of every later append/insert/detach/replace/print/delete.", HIST_NOTE, "DESIGN.md §3 C19")
@@ -83,7 +83,7 @@ add("C08", "x_fault", "fault_enumeration", "exhaustive single-fault enumeration:
     "Trusted: the allocation ledger, ASan/UBSan, structural walk. Deviation bound = 1 refused request (thorough: suffix of refused requests); scenario list is finite and stated.", "DESIGN.md §3 C08")
 add("C12", "x_compare", MC, "all ordered pairs of exhaustively enumerated trees x both case modes against reference equality",
     "All trees with <= 3 nodes over 19 leaves (numbers 1, 1+eps, 1+2eps, 1e300 and neighbour, denormal pair, 5e-324, inf, NaN, strings, raw) and keys {a,A,b} (thorough: <= 4 nodes over a reduced alphabet), one-member objects over every single-byte key; every ordered pair x {case-sensitive, -insensitive}, "
-    "second tree in one of three ownership variants: Compare(a,b) == Compare(b,a) == model, reflexive, variants equal, NULL/invalid (type 0, two type bits, string without text) false, arguments unchanged; trees nested CJSON_NESTING_LIMIT deep.",
+    "second tree in one of three ownership variants: Compare(a,b) == Compare(b,a) == model, reflexive, variants equal, NULL/invalid (type 0, two type bits, string without text) false, arguments unchanged; the reversed call is made with every truthy case_sensitive value {1,2,-1,256} in turn; trees nested CJSON_NESTING_LIMIT deep.",
     "Trusted: reference equality in the harness (relative-epsilon rule evaluated in long double; pairs the statement leaves open are not asserted).", "DESIGN.md §3 C12")
 add("C13", "x_minify", MC, "bounded exhaustive byte strings (safety, guard pages on both sides) and token x gap-filler combinations (value preservation) through cJSON_Minify",
     "Safety: all strings up to 6 (thorough 7) bytes over the 13 bytes that steer the scanner, terminator as last accessible byte and mirrored placement. Value: token lists of all trees <= 4 nodes x 13 string-literal variants (escaped quotes/backslashes, comment look-alikes) with gaps from 12 fillers "
@@ -94,7 +94,7 @@ UT_NOTE = ("Trusted: the harness' RFC 6901/6902/7396 reference evaluators on a p
            "Bounded by the document node bound, key/leaf alphabets and pointer/patch alphabets stated in the evidence.")
 add("C15", "x_utils", MC, "bounded exhaustive documents x pointer strings against an RFC 6901 reference resolver; all (root,node) pairs for construction",
     "3356 documents (all trees <= 3 nodes over leaves {1,\"s\"} and 13 awkward keys incl. '', '/', '~', '~0', '~1', '01', '-') plus a 30-element array, a 2-element array and a nested array of objects x every pointer string over {/,~,0,1,2,a,A,-} up to length 4 (thorough 5) "
-    "and 1320 special strings (leading zeros, trailing garbage, overflowing indices, bad escapes): returned node pointer must equal the reference, on the document built with owned keys and on the same document built with constant keys. FindPointerFromObjectTo for every node (incl. two documents nested CJSON_NESTING_LIMIT deep): exact text, resolves back, foreign node -> NULL.", UT_NOTE, "DESIGN.md §3 C15")
+    "and 1320 special strings (leading zeros, trailing garbage, overflowing indices, bad escapes): returned node pointer must equal the reference, on the document built with owned keys and on the same document built with constant keys. FindPointerFromObjectTo for every node (incl. two documents nested CJSON_NESTING_LIMIT deep): exact text, resolves back, foreign node -> NULL; repeated with user-supplied allocation hooks installed (no direct C-library allocation on hook blocks).", UT_NOTE, "DESIGN.md §3 C15")
 add("C16", "x_utils", MC, "bounded exhaustive documents x patch documents against an RFC 6902 reference evaluator",
     "All 1918 documents <= 3 nodes x every single-operation patch over one-token paths; 332 documents x every single operation over two-token paths/froms; all two-operation patches over existing/insertable paths; every JSON object with <= 3 (4) members over {op,path,from,value,x} x 18 values as patch (array-wrapped and bare). "
     "Every other case builds document and patch with constant keys; the one-token stage is repeated under the tagging custom allocator (no libc call, no foreign free); an index stage covers overflowing / malformed array index tokens in every operation. "
